@@ -1316,6 +1316,23 @@ class Bpsec(AbstractApplication):
 
         # verification may remove an accepted block from the container
         confidential_blocks = list(ctr.block_type(BlockConfidentialityBlock))
+
+        # A security block which did not decode cannot be verified,
+        # unless it is itself the (still encrypted) target of a BCB
+        encrypted = set()
+        for bcb in confidential_blocks:
+            encrypted.update(bcb.payload.targets)
+        sec_types = (
+            BlockIntegrityBlock._overload_fields[CanonicalBlock]['type_code'],
+            BlockConfidentialityBlock._overload_fields[CanonicalBlock]['type_code'],
+        )
+        for blk in ctr.bundle.blocks:
+            if (blk.type_code in sec_types
+                    and not isinstance(blk.payload, AbstractSecurityBlock)
+                    and blk.block_num not in encrypted):
+                LOGGER.warning('Security block num %d cannot be decoded', blk.block_num)
+                failure.append(StatusReport.ReasonCode.FAILED_SEC)
+
         for bcb in confidential_blocks:
             LOGGER.debug('Verifying BCB in %d with context %s, targets %s',
                          bcb.block_num, bcb.payload.context_id, bcb.payload.targets)
